@@ -139,10 +139,25 @@ class Condition:
         return False
 
     def wait_for(self, predicate, timeout=None):
-        if predicate():
-            return True
-        self.wait(timeout)
-        return predicate()
+        # threading.Condition.wait_for: wait again and again until the predicate holds or the time is used up
+        endtime = None
+        waittime = timeout
+        result = predicate()
+        guard = 0
+        while not result:
+            guard += 1
+            if guard > 1000:
+                raise Unsupported("Condition.wait_for does not terminate")
+            if waittime is not None:
+                if endtime is None:
+                    endtime = ENV.read_clock() + waittime
+                else:
+                    waittime = endtime - ENV.read_clock()
+                    if waittime <= 0:
+                        break
+            self.wait(waittime)
+            result = predicate()
+        return result
 
     def notify(self, n=1):
         self.notified += 1
